@@ -21,12 +21,13 @@ import (
 
 // Decision kinds.
 const (
-	KSched    = 1 // which goroutine runs next (choice 0 = keep running / lowest id)
-	KMapOrder = 2 // order of one visit of one map range (0 asc, 1 desc, >=2 shuffle seed)
-	KPoolGet  = 3 // which pooled object Get returns (0 = most recent; n-1 = New)
-	KPoolDrop = 4 // Put drops the object (0 = keep)
-	KCallback = 5 // callback fault (0 = none)
-	KClock    = 6 // reserved
+	KSched      = 1 // which goroutine runs next (choice 0 = keep running / lowest id)
+	KMapOrder   = 2 // order of one visit of one map range (0 asc, 1 desc, >=2 shuffle seed)
+	KPoolGet    = 3 // which pooled object Get returns (0 = most recent; n-1 = New)
+	KPoolDrop   = 4 // Put drops the object (0 = keep)
+	KCallback   = 5 // callback fault (0 = none)
+	KClock      = 6 // reserved
+	KLockCommit = 7 // a waiting writer announces itself (0 = not yet)
 )
 
 // Decision is one recorded nondeterministic choice.
